@@ -166,8 +166,7 @@ fn main() {
                         if runner::run_set(&run) != runner::this_set() {
                             continue;
                         }
-                        let obs = world::execute(&run);
-                        let j = (sc.judge)(&run, &obs);
+                        let (obs, j) = runner::exec_obs_and_judge(sc, &run);
                         let mut h = prng::str_hash(&serde_json::to_string(&run).unwrap());
                         // v1.public signatures carry real RSA-PSS salt and observe-mode builds real OS
                         // entropy: for those runs only the event list and the violation count are digested
